@@ -5,6 +5,7 @@ import (
 	"go/token"
 	"go/types"
 	"reflect"
+	"strconv"
 	"strings"
 
 	"github.com/cloudflare/ahocorasick"
@@ -364,6 +365,14 @@ func init() {
 		// ----- fmt -----
 		"fmt.Sprintf": func(in *Interp, fn *ssa.Function, a []Value) Value {
 			return in.sprintf(a[0].(*Str), in.sliceElems(a[1]))
+		},
+		// strconv.Itoa of a symbolic int: the same decimal model as %d (concrete arguments are interpreted from the source)
+		"strconv.Itoa": func(in *Interp, fn *ssa.Function, a []Value) Value {
+			t := a[0].(*sym.Term)
+			if t.IsConst() {
+				return concStr(strconv.Itoa(int(t.I)))
+			}
+			return in.strItoa(t)
 		},
 		// Fprintf / Fprint / Fprintln into a *strings.Builder (the only writers the repository formats into)
 		"fmt.Fprintf": func(in *Interp, fn *ssa.Function, a []Value) Value {
